@@ -8,7 +8,7 @@ pub fn parse(text: &str) -> Result<(SyntaxTree, Defines), Error> {
     parse_sv_str(text, PathBuf::from("t.sv"), &d, &i, false, false)
 }
 
-const TRIVIA: &[&str] = &[" ", "  ", "\t", "\n", "\r\n", " \n ", "\x0c", " \x0c ", "/* c */", " /* a\n b */ ", " // c\n", "//\n",
+const TRIVIA: &[&str] = &[" ", "  ", "\t", "\n", "\r\n", " \n ", "\x0c", " \x0c ", "/* c */", " /* a\n b */ ", "/** d **/", "/****/", "/***/", " /* * / */ ", " // c\n", "//\n",
     "\n`celldefine\n", "\n`endcelldefine\n", "\n`default_nettype wire\n", "\n`timescale 1ns/1ps\n", "\n`unconnected_drive pull0\n", "\n`nounconnected_drive\n",
     "\n`line 7 \"f.v\" 0\n", "\n`define ZZ 1\n", "\n`undef ZZ\n"];
 
